@@ -140,6 +140,10 @@ var OXMTable = []OXMField{
 	{ClassNXM1, 123, "NXM_NX_CT_IPV6_DST", 16, true},
 	{ClassNXM1, 124, "NXM_NX_CT_TP_SRC", 2, true},
 	{ClassNXM1, 125, "NXM_NX_CT_TP_DST", 2, true},
+	// ONF experimenter class (0xffff, experimenter id 0x4f4e4600 after the OXM header; ONF extensions EXT-109 / EXT-233):
+	// what an OpenFlow 1.3 switch sends for TCP flags and action-set output
+	{ClassExp, 42, "ONFOXM_ET_TCP_FLAGS", 2, true},
+	{ClassExp, 43, "ONFOXM_ET_ACTSET_OUTPUT", 4, false},
 }
 
 // TunMetadataMaxWidth is the largest tunnel-metadata payload OVS defines (be124).
